@@ -162,6 +162,41 @@ pub fn run(cases_path: &str, out_path: &str) {
                 json!({"ev": "lsp", "m": m, "stage": stage, "dev": dev, "dev1": dev1, "rel": rel, "noise": noise, "noise1": noise1, "finite": finite, "decay": decay,
                        "ks": ks, "alpha": c["alpha"], "rate": rate, "loggain": lg, "gain8": c["gain8"]})
             }
+            "lspbeta" => {
+                // C01 on the LSP path with the formant postfilter: sixty 20 Hz periods of one constant frame; the output must stay finite and
+                // must not grow from period to period (a stable filter driven periodically settles into a periodic response)
+                let ks: Vec<i64> = va(&c["ks"]).iter().map(vi).collect();
+                let m = ks.len();
+                let stage = vu(&c["stage"]);
+                let lg = vb(&c["loggain"]);
+                let g = vi(&c["gain8"]) as f64 / 8.0;
+                let beta = vi(&c["beta8"]) as f64 / 8.0;
+                let mut sp = vec![g];
+                sp.extend(ks.iter().map(|k| (*k as f64 / 8.0).acos()));
+                let t0 = rate / 20;
+                let r = guarded(|| {
+                    let mut v = Vocoder::new(m + 1, 0, stage, lg, rate, alpha, beta, 1.0, t0);
+                    let mut e = Vec::with_capacity(60);
+                    let mut finite = true;
+                    for _ in 0..60 {
+                        let mut buf = vec![0.0; t0];
+                        v.synthesize(20f64.ln(), &sp, &[], &mut buf);
+                        finite &= buf.iter().all(|x| x.is_finite());
+                        e.push(energy(&buf));
+                    }
+                    (finite, e)
+                });
+                match r {
+                    Ok((finite, e)) => {
+                        let early = e[1].max(e[2]).max(1e-300);
+                        let late = e[3..].iter().cloned().fold(0.0f64, f64::max);
+                        let growth = if finite && late.is_finite() { (10.0 * (late / early).log10()).round().clamp(-2.0e9, 2.0e9) as i64 } else { 2_000_000_000 };
+                        json!({"ev": "lspfin", "m": m, "stage": stage, "ks": ks, "alpha": c["alpha"], "rate": rate, "beta8": c["beta8"], "loggain": lg,
+                               "finite": finite, "growth_db": growth, "silent": late == 0.0})
+                    }
+                    Err(p) => json!({"ev": "panic", "in": "vocoder(lsp, beta)", "msg": p, "input": c}),
+                }
+            }
             k => die(&format!("unknown spectral case kind {}", k)),
         }
     });
